@@ -4,7 +4,9 @@ import (
 	"crypto/sha256"
 	"encoding/binary"
 	"fmt"
+	"sort"
 	"strings"
+	"sync"
 	"testing"
 
 	"github.com/nspcc-dev/neo-go/pkg/compiler"
@@ -267,4 +269,83 @@ func stagesBefore() []string {
 		res = append(res, hfs[i].String())
 	}
 	return append(res, "none")
+}
+
+// stageReporter routes violations: what is observed with the current protocol
+// (stage "all") is reported as is; what is observed only on chains configured
+// with an older hardfork set is reported once, under a signature that names the
+// hardfork from which it is no longer observed (such behaviour is frozen
+// history of the protocol, not the behaviour of new blocks).
+type stageReporter struct {
+	mu       sync.Mutex
+	run      *ev.Run
+	deferred map[string]*deferredViolation
+	current  map[string]bool
+}
+
+type deferredViolation struct {
+	stages  map[string]bool
+	caseID  string
+	detail  string
+	witness any
+	count   int
+}
+
+var reporter *stageReporter
+
+func violation(stage, sig, caseID, detail string, witness any) {
+	r := reporter
+	if stage == "all" {
+		r.mu.Lock()
+		r.current[sig] = true
+		r.mu.Unlock()
+		r.run.Violation(sig, caseID, detail, witness)
+		return
+	}
+	r.mu.Lock()
+	defer r.mu.Unlock()
+	d := r.deferred[sig]
+	if d == nil {
+		d = &deferredViolation{stages: map[string]bool{}, caseID: caseID, detail: detail, witness: witness}
+		r.deferred[sig] = d
+	}
+	d.stages[stage] = true
+	d.count++
+}
+
+func (r *stageReporter) flush() {
+	order := append([]string{"none"}, func() []string {
+		var s []string
+		for _, hf := range config.StableHardforks {
+			s = append(s, hf.String())
+		}
+		return s
+	}()...)
+	var sigs []string
+	for s := range r.deferred {
+		sigs = append(sigs, s)
+	}
+	sort.Strings(sigs)
+	for _, sig := range sigs {
+		d := r.deferred[sig]
+		if r.current[sig] {
+			// also seen with the current protocol: same finding
+			r.run.Violation(sig, d.caseID, d.detail, d.witness)
+			continue
+		}
+		last := 0
+		var st []string
+		for i, s := range order {
+			if d.stages[s] {
+				last = i
+				st = append(st, s)
+			}
+		}
+		until := "later"
+		if last+1 < len(order) {
+			until = order[last+1]
+		}
+		r.run.Violation(sig+"@only-before-hardfork-"+until, d.caseID,
+			fmt.Sprintf("%s [observed on chains whose last enabled hardfork is one of %v, %d cells; not observed with the current hardfork set]", d.detail, st, d.count), d.witness)
+	}
 }
